@@ -563,6 +563,10 @@ func (b *Bridge) Ops(s *HState) []engine.Op {
 	if on("Lag") {
 		ops = append(ops, engine.OpN("Lag"))
 	}
+	if on("ObserveSet0") {
+		// the contract reports the signer set it was deployed with (Hub2.sol's constructor emits ValsetUpdatedEvent with nonce 0)
+		ops = append(ops, engine.OpN("ObserveSet0", "ethereum"))
+	}
 	if on("Rotate") {
 		for k := 1; k <= 3; k++ {
 			ops = append(ops, engine.OpN("Rotate", k))
@@ -708,6 +712,18 @@ func (b *Bridge) Do(in *hub.Instance, gg Ghost, op engine.Op, st *engine.Step) {
 			in.DeliverMsg(&oracletypes.MsgPriceClaim{Epoch: epoch, Prices: &oracletypes.Prices{List: pl}, Orchestrator: v.Acc.String()})
 		}
 		st.Obs = "prices"
+	case "ObserveSet0":
+		ch := op.S[0]
+		var members []*mhubtypes.ExternalSigner
+		for i, v := range b.Vals {
+			members = append(members, &mhubtypes.ExternalSigner{Power: uint64(1000 * (len(b.Vals) - i)), ExternalAddress: v.Eth.Hex()})
+		}
+		g.EvNonce[ch]++
+		g.ExtHeight[ch]++
+		ev := &mhubtypes.SignerSetTxExecutedEvent{EventNonce: g.EvNonce[ch], SignerSetTxNonce: 0, ExternalHeight: g.ExtHeight[ch], Members: members, TxHash: fmt.Sprintf("0xdeploy-%d", g.EvNonce[ch])}
+		g.Pending = append(g.Pending, pendingEvent{Chain: ch, Kind: "valset", EvNonce: g.EvNonce[ch], Height: g.ExtHeight[ch]})
+		b.observe(in, ch, ev, st)
+		st.Obs = "set0"
 	case "Lag":
 		g.LagA = !g.LagA
 		st.Obs = fmt.Sprint(g.LagA)
@@ -1050,6 +1066,10 @@ var seedTwoTokenBatches = []engine.Op{engine.OpN("Deposit", "ethereum", "hub", "
 	engine.OpN("Send", "ethereum", "hub", 0, 0, 0), engine.OpN("ReqBatch", "ethereum", "hub"),
 	engine.OpN("Send", "ethereum", "eth", 0, 0, 0), engine.OpN("ReqBatch", "ethereum", "eth")}
 
+// seedSharedHash: one hub transaction carried two withdrawals (ids 1 and 2, one tx hash); the sender cancelled the
+// first (its status - the status of the shared hash - is REFUNDED for good), the second sits in batch 1.
+var seedSharedHash = append(append([]engine.Op{}, seedObserved...), engine.OpN("Send2", "ethereum", "hub"), engine.OpN("Cancel", "ethereum", 0, 1), engine.OpN("ReqBatch", "ethereum", "hub"))
+
 func bridgeCfgFor(prop, tier string) (BridgeCfg, engine.Config) {
 	thorough := tier == "thorough"
 	cfg := BridgeCfg{Prop: prop, Tokens: stdTokens(18), Powers: []int64{10, 10, 10}, Users: 1,
@@ -1062,7 +1082,7 @@ func bridgeCfgFor(prop, tier string) (BridgeCfg, engine.Config) {
 	switch prop {
 	case "C04":
 		cfg.Ops = opsSet("Next", "Send", "Send2", "Cancel", "ReqBatch", "Exec", "Deposit", "ExtAdvance", "NextTimeout")
-		cfg.Seeds = [][]engine.Op{{}, seedObserved, seedRefundBatched, seedTwoTokenBatches}
+		cfg.Seeds = [][]engine.Op{{}, seedObserved, seedRefundBatched, seedTwoTokenBatches, seedSharedHash}
 	case "C10":
 		cfg.Ops = opsSet("Next", "Send", "ReqBatch")
 		cfg.Fees = []int64{7, 7, 50}
@@ -1076,7 +1096,7 @@ func bridgeCfgFor(prop, tier string) (BridgeCfg, engine.Config) {
 		// third seed: the module-created refund transfer (no refund destination) and a user's transfer of a smaller
 		// token id sit in two ethereum batches whose timeout the external chain has passed (not yet observed)
 		cfg.Seeds = [][]engine.Op{{}, seedRefundBatched, append(append([]engine.Op{}, seedRefundBatched...),
-			engine.OpN("Send", "ethereum", "eth", 0, 0, 0), engine.OpN("Next", 5), engine.OpN("Next", 5), engine.OpN("ExtAdvance", "ethereum"))}
+			engine.OpN("Send", "ethereum", "eth", 0, 0, 0), engine.OpN("Next", 5), engine.OpN("Next", 5), engine.OpN("ExtAdvance", "ethereum")), seedSharedHash}
 		cfg.Users = 2
 		cfg.Fees = []int64{7}
 		cfg.SendDenoms = []string{"hub"}
@@ -1160,7 +1180,17 @@ func init() {
 		dl.DepDests = []string{"minter", "bsc"}
 		dl.DepFees = []int64{0}
 		dl.Seeds = [][]engine.Op{{}, {engine.OpN("Next", 5)}}
+		// one validator (a third of the power, below the quorum) claims a far-ahead external height for the next nonce while a
+		// batch is pending; relayers still hold that batch's signatures
+		fh := cfg
+		fh.Ops = opsSet("Next", "Send", "ReqBatch", "Exec", "Cancel", "FakeHeight", "Deposit")
+		fh.SendChains = []string{"ethereum"}
+		fh.DepChains = []string{"ethereum"}
+		fh.DepDests = []string{"hub"}
+		fh.DepFees = []int64{0}
+		fh.Seeds = [][]engine.Op{append(append([]engine.Op{}, seedObserved...), engine.OpN("Send", "ethereum", "hub", 0, 0, 0), engine.OpN("ReqBatch", "ethereum", "hub"))}
 		return []MultiCase{{Name: "oracle prices present", Spec: NewBridge(cfg), Cfg: ec}, {Name: "no oracle prices yet", Spec: NewBridge(np), Cfg: ec2},
+			{Name: "a minority claims a far-ahead external height while a batch is pending", Spec: NewBridge(fh), Cfg: ec2},
 			{Name: "token taken off the originating chain's list while a transfer from there is pending", Spec: NewBridge(dl), Cfg: ec2},
 			{Name: "24-decimals token, fee-paying transfers from Minter, fee surplus at execution", Spec: NewBridge(hd), Cfg: ec2}}, bridgeAssumptions(cfg)
 	}))
@@ -1219,13 +1249,21 @@ func init() {
 		hd.SendDenoms = []string{"hub"}
 		hd.Ops = opsSet("Next", "Deposit", "ReqBatch", "Exec")
 		hd.Seeds = [][]engine.Op{append(append([]engine.Op{}, seedObserved...), engine.OpN("Deposit", "minter", "hub", "ethereum", 0, 0), engine.OpN("Next", 5))}
+		// two withdrawals of one hub transaction: one cancelled, the other batched; the batch is then withdrawn
+		sh := cfg
+		sh.Seeds = [][]engine.Op{seedSharedHash}
+		sh.Ops = opsSet("Next", "Send", "ReqBatch", "Exec", "Deposit", "ExtAdvance")
+		sh.SendChains = []string{"ethereum"}
+		sh.SendDenoms = []string{"hub"}
+		sh.DepChains = []string{"ethereum"}
 		const weth, ust = "0xC02aaA39b223FE8D0A0e5C4F27eAD9083C756Cc2", "0xa47c8bf37f92aBed4A126BDA807A7b7498661acD"
 		return []MultiCase{{Name: "from observed heights", Spec: NewBridge(a), Cfg: ec}, {Name: "from two pending batches of different tokens on ethereum", Spec: NewBridge(bb), Cfg: ecb},
 			{Name: "from two batches of one token whose timeouts are not monotone", Spec: NewBridge(cc), Cfg: ecb},
 			{Name: "mixed-case contract ids (0xC02a.. = hub, 0xa47c.. = eth), three pending batches", Spec: NewBridge(mk(weth, ust)), Cfg: ecb},
 			{Name: "mixed-case contract ids (0xa47c.. = hub, 0xC02a.. = eth), three pending batches", Spec: NewBridge(mk(ust, weth)), Cfg: ecb},
 			{Name: "transfers whose commission is smaller than the number of validators", Spec: NewBridge(dd), Cfg: ecb},
-			{Name: "24-decimals token, fee-paying transfers from Minter, fee surplus at execution", Spec: NewBridge(hd), Cfg: ecb}}, bridgeAssumptions(cfg)
+			{Name: "24-decimals token, fee-paying transfers from Minter, fee surplus at execution", Spec: NewBridge(hd), Cfg: ecb},
+			{Name: "two withdrawals of one transaction, one cancelled, the other in a batch", Spec: NewBridge(sh), Cfg: ecb}}, bridgeAssumptions(cfg)
 	}))
 	Register("C15", MultiRunner(func(tier string) ([]MultiCase, []string) {
 		cfg, ec := bridgeCfgFor("C15", tier)
@@ -1239,7 +1277,7 @@ func init() {
 		ech.Deadline = ec.Deadline / 3
 		// a lagging validator (its last claimed nonce behind the observed one) and rotated delegate keys
 		lr := cfg
-		lr.Ops = opsSet("Next", "Deposit", "Lag", "Rotate")
+		lr.Ops = opsSet("Next", "Deposit", "Lag", "Rotate", "ObserveSet0")
 		lr.DepDests = []string{"hub"}
 		lr.Seeds = [][]engine.Op{{engine.OpN("Deposit", "ethereum", "hub", "hub", 0, 0), engine.OpN("Next", 5)}}
 		// parameters at the edge of what their validators admit (governance can set them): zero timeouts and windows, no chain
@@ -1292,7 +1330,18 @@ func init() {
 		to.Seeds = [][]engine.Op{append(append([]engine.Op{}, seedObserved...), engine.OpN("Send", "ethereum", "hub", 0, 0, 0), engine.OpN("ReqBatch", "ethereum", "hub"))}
 		ect := ec
 		ect.Deadline = ec.Deadline / 2
-		return []MultiCase{{Name: "pools and permissionless requests", Spec: NewBridge(cfg), Cfg: ec}, {Name: "batches timing out and being rebuilt", Spec: NewBridge(to), Cfg: ect}}, bridgeAssumptions(cfg)
+		// two withdrawals of one hub transaction (one status record), one of them cancelled before batching
+		sh := cfg
+		sh.Ops = opsSet("Next", "Send", "Send2", "Cancel", "ReqBatch")
+		sh.SendChains = []string{"ethereum"}
+		sh.SendDenoms = []string{"hub"}
+		sh.Fees = []int64{7}
+		sh.MaxCancelID = 3
+		ecs := ec
+		ecs.MaxDepth = 4
+		ecs.Deadline = ec.Deadline / 2
+		return []MultiCase{{Name: "pools and permissionless requests", Spec: NewBridge(cfg), Cfg: ec}, {Name: "batches timing out and being rebuilt", Spec: NewBridge(to), Cfg: ect},
+			{Name: "two withdrawals of one transaction, one cancelled", Spec: NewBridge(sh), Cfg: ecs}}, bridgeAssumptions(cfg)
 	}))
 	for _, p := range []string{"C04", "C12"} {
 		prop := p
